@@ -20,7 +20,9 @@ I_COMPONENTS = {"real": ["cmd/zoekt-sourcegraph-indexserver Queue, backoff, inde
 B_COMPONENTS = {"real": ["index.Builder (Add/flush/buildShard/writeShard/Finish)", "ShardBuilder.Write", "index.SetTombstone/JsonMarshalRepoMetaTemp", "index.Merge/Explode", "search.NewDirectorySearcher as the observer", "real files in a private tmpfs directory"], "stub": ["os.* of the instrumented packages (simos: counts, fails, or kills the process at every operation)", "Parallelism=1 (no builder goroutines) in the enumerating harnesses"]}
 ENUM_ASSUME = ["kill = kill -9: completed system calls persist, nothing afterwards happens, deferred cleanup has no effect; power loss (lost page cache) is not modelled because zoekt never fsyncs", "crash/failure points are enumerated exhaustively per sampled scenario; scenarios are sampled by seed"]
 
-GROUPS = ["search", "ixserver", "grpcsim", "buildsim", "mergesim"]
+G_COMPONENTS = {"real": ["gitindex.IndexGitRepo (go-git tree walking, prepareDeltaBuild/prepareNormalBuild, git cat-file --batch child process)", "index.Builder, tombstone sidecars", "a real git repository driven by the git CLI (git 2.39)", "search.NewDirectorySearcher as observer"], "stub": ["os.* and os/exec of the instrumented packages (simos, simexec)"]}
+
+GROUPS = ["search", "ixserver", "grpcsim", "buildsim", "mergesim", "gitsim"]
 
 PROPS = {
     "C20": dict(
@@ -136,7 +138,7 @@ PROPS = {
     "C12": dict(
         group="buildsim", level="fault_enumeration",
         rule="one run = one sampled scenario (old index of 1-5 documents in 1-4 shards or inside a compound shard; new full, delta or shard-merging build with changed/removed/added documents, optionally new repository metadata). evaluations = executions: the recorded fault-free build plus, for EVERY file-system operation k of that build: kill before k (mutating ops), kill in the middle of k (writes), fail k with EIO. distinct_nontrivial = distinct (scenario, fault kind, k, resulting directory class) tuples.",
-        harnesses=[dict(name="C12", quick=48, thorough=6000, quick_deadline_s=170, thorough_deadline_s=1500, ulimit_kb=24000000, env={"VERIF_GCPERCENT": "50", "VERIF_MEMLIMIT_MB": "2048"})],
+        harnesses=[dict(name="C12", workers=4, quick=48, thorough=6000, quick_deadline_s=170, thorough_deadline_s=1500, ulimit_kb=24000000, env={"VERIF_GCPERCENT": "50", "VERIF_MEMLIMIT_MB": "2048"})],
         expect_faults=["kill", "kill-in-write", "fail-rename", "fail-createtemp", "fail-write", "fail-remove"],
         components=B_COMPONENTS, assumptions=ENUM_ASSUME,
         technique="deterministic fault enumeration: every file-system operation of a recorded index build is replayed as a kill point and as an I/O error point on the simulated disk; the resulting directory is judged old/new/mixed/unloadable by a fresh searcher",
@@ -146,7 +148,7 @@ PROPS = {
     "C17": dict(
         group="buildsim", level="fault_enumeration",
         rule="one run = one compound shard of 2-5 repositories and a history of 3-10 operations (set / unset tombstone for known and unknown repository ids, file tombstone written into the sidecar). evaluations = executions followed by a reload+query: each operation fault free, then once per file-system operation of that operation as failing operation and (mutating ones) as kill point before / inside it, plus idempotence re-applications. distinct_nontrivial = distinct (history, fault kind, k, old/new/neither) tuples.",
-        harnesses=[dict(name="C17", quick=220, thorough=12000, quick_deadline_s=170, thorough_deadline_s=1500, ulimit_kb=24000000, env={"VERIF_GCPERCENT": "50", "VERIF_MEMLIMIT_MB": "2048"})],
+        harnesses=[dict(name="C17", workers=4, quick=220, thorough=12000, quick_deadline_s=170, thorough_deadline_s=1500, ulimit_kb=24000000, env={"VERIF_GCPERCENT": "50", "VERIF_MEMLIMIT_MB": "2048"})],
         expect_faults=["kill", "kill-in-write", "fail-rename", "fail-createtemp", "fail-write", "fail-open"],
         components=B_COMPONENTS, assumptions=ENUM_ASSUME + ["reference model = set of tombstoned repository ids and (repository, path) pairs; expected results are the pristine compound shard's documents minus the tombstoned ones"],
         technique="deterministic fault enumeration over generated tombstone histories: every file-system operation of every set/unset/file-tombstone operation is a kill point and an I/O-error point on the simulated disk; reload + query after each, compared with a set model",
@@ -156,7 +158,7 @@ PROPS = {
     "C35": dict(
         group="mergesim", level="fault_enumeration",
         rule="one run = 2-4 input simple shards (some with metadata sidecars). merge() and then index.Explode() are each executed once fault free (recorded) and then once per file-system operation (open, read, create, write, rename, remove) as failing operation and, for mutating ones, as kill point before / inside it. distinct_nontrivial = distinct (inputs, phase, fault kind, k, resulting shard membership) tuples.",
-        harnesses=[dict(name="C35", quick=60, thorough=4000, quick_deadline_s=170, thorough_deadline_s=1500, ulimit_kb=24000000, env={"VERIF_GCPERCENT": "50", "VERIF_MEMLIMIT_MB": "2048"})],
+        harnesses=[dict(name="C35", workers=4, quick=60, thorough=4000, quick_deadline_s=170, thorough_deadline_s=1500, ulimit_kb=24000000, env={"VERIF_GCPERCENT": "50", "VERIF_MEMLIMIT_MB": "2048"})],
         expect_faults=["kill", "kill-in-write", "fail-open", "fail-rename", "fail-remove", "fail-createtemp", "fail-write"],
         components={"real": ["cmd/zoekt-merge-index merge()", "index.Merge, index.Explode, builderWriteAll", "index.ReadMetadataPathAlive as the observer"], "stub": ["os.* of the instrumented packages (simos)"]},
         assumptions=ENUM_ASSUME,
@@ -166,12 +168,21 @@ PROPS = {
     ),
     "C10": dict(
         group="buildsim", level="exploration", rule=SCHED_RULE,
-        harnesses=[dict(name="C10", quick=260, thorough=20000, quick_deadline_s=170, thorough_deadline_s=1500, ulimit_kb=24000000, env={"VERIF_GCPERCENT": "50", "VERIF_MEMLIMIT_MB": "3072"})],
+        harnesses=[dict(name="C10", workers=4, quick=260, thorough=20000, quick_deadline_s=170, thorough_deadline_s=1500, ulimit_kb=24000000, env={"VERIF_GCPERCENT": "50", "VERIF_MEMLIMIT_MB": "3072"})],
         expect_probes=["pool-hit", "pool-miss"],
         components={"real": ["index.Builder with Parallelism 1-16 (flush goroutines, throttle channel, errMu, WaitGroup)", "postingsBuilder pooling (sync.Pool -> simulated pool whose hit/miss and object choice come from the tape)", "ShardBuilder.Write, index.Merge", "search.NewDirectorySearcher as observer"], "stub": ["goroutine scheduling", "sync primitives", "sync.Pool"]},
         assumptions=COMMON_ASSUME + ["claim limited to the concurrency/pooling/shard-split/insertion-order/compound dimension; corpora are sampled (3-18 small documents per repository, two repositories)", "ranking order and scores are not compared (the property is about which documents, matches and branches are found)"],
         technique="deterministic simulation: two concurrent index builds under seeded schedules with simulated buffer-pool reuse, varying parallelism, shard limits and insertion order; self-differential against a sequential single-shard build",
         level_text="Two repositories (3-18 generated documents, 1-2 branches, occasional binary documents) are indexed concurrently under the seeded scheduler with Parallelism 1/2/4/16, ShardMax forcing 1..many shards, permuted Add order and tape-chosen reuse of pooled postings builders, optionally merged into a compound shard; a fresh directory searcher must return, for 7 fixed queries, exactly the files, contents, line matches and branches of the sequential one-shard-per-repository reference build.",
         level_note="Samples schedules and corpora; builds dominate the cost (about 0.3-1 s per run).",
+    ),
+    "C13": dict(
+        group="gitsim", level="exploration",
+        rule="one run = one generated history over a real git repository with 2-3 branches: 3-10 steps of commits (write/delete/rename/shared-blob/revert on 6 paths) and indexing runs (full, delta, delta with shard-number fallback threshold, occasional change of the indexed branch set). evaluations = indexing runs followed by a per-branch comparison with git; distinct_nontrivial = distinct history prefixes (hashed) at which a comparison was made.",
+        harnesses=[dict(name="C13", workers=4, quick=240, thorough=20000, quick_deadline_s=170, thorough_deadline_s=1500, ulimit_kb=24000000, env={"VERIF_GCPERCENT": "200", "VERIF_MEMLIMIT_MB": "2048"})],
+        components=G_COMPONENTS, assumptions=["model = what `git ls-tree -r <branch>` and `git cat-file blob` say about each indexed branch head", "history dimension only: kills during the indexing runs are C12's subject"],
+        technique="deterministic simulation of histories: seeded commit/index histories on a real git repository, model-based comparison of per-branch search results with git after every indexing run",
+        level_text="Generated commit histories over several branches interleaved with full and delta indexing runs through the real gitindex.IndexGitRepo; after every run and for every indexed branch, a search restricted to the branch returns exactly one document with the head content for each path in the branch head and no document for any other path.",
+        level_note="Samples histories (seeded); git CLI dominates the cost (about 0.3 s per history).",
     ),
 }
